@@ -12,7 +12,10 @@ Tuple(a, p) == [name |-> "tcp", ftype |-> 3, src |-> a[1], dst |-> a[2], sport |
 Static(n, t) == [name |-> n, ftype |-> t, src |-> <<0, 0, 0, 0>>, dst |-> <<0, 0, 0, 0>>, sport |-> 0, dport |-> 0]
 \* ftype -2, -3, -4: interpreter self-test programs of the harness (every opcode class of classic BPF); they bind Bpf.tla's
 \* interpreter to the real x/net/bpf VM beyond the opcodes the repository's programs use today
-Configs == {Static("icmp", 1), Static("udp", 2), Static("synack", 4), Static("dropall", -1), Static("selftest", -2), Static("selftest", -3), Static("selftest", -4)}
+\* the SYN-ACK filter is installed with the dialled endpoint in its configuration (sack/traceroute_sack.go): it must not depend on it
+SynackFor(a, p) == [Static("synack", 4) EXCEPT !.src = a, !.sport = p]
+Configs == {SynackFor(<<198, 51, 100, 9>>, 443), SynackFor(<<1, 2, 3, 4>>, 33434), SynackFor(<<127, 255, 128, 255>>, 65535)} \cup
+           {Static("icmp", 1), Static("udp", 2), Static("synack", 4), Static("dropall", -1), Static("selftest", -2), Static("selftest", -3), Static("selftest", -4)}
            \cup {Tuple(a, <<33434, 40000>>) : a \in AddrPairs} \cup {Tuple(<<<<198, 51, 100, 9>>, <<10, 77, 0, 1>>>>, p) : p \in PortPairs}
 ASSUME JsonSerialize(IOEnv.VT_OUT, SetToSeq(Configs)) /\ PrintT(<<"GEN", "bpfcfg", Cardinality(Configs), Cardinality(Configs)>>)
 VARIABLE x
